@@ -126,6 +126,23 @@ def run_forced(b, script, save_at, *, clip=False, eps=1e-8, driver="save_at", re
     err = ForcedErr(script, rec)
     ctrl = ForcedCtrl(script)
     damp = b.cfg["damp"]
+    sol, truncated = None, False
+    try:
+        sol = _solve_natural(b, rs, err, ctrl, save_at, atol, rtol, dt0, clip, eps, driver, damp, budget)
+    except StopRun:
+        truncated = True
+    r = Run()
+    r.sol, r.rs, r.err, r.ctrl, r.rec, r.truncated = sol, rs, err, ctrl, rec, truncated
+    r.accepted = [(t, dt) for (t, dt, seen, true) in err.log if seen >= 1.0]
+    r.attempts = len(err.log)
+    return r
+
+
+class StopRun(Exception):
+    """Raised by the estimator proxy to end a simulated run early (enough attempts recorded)."""
+
+
+def _solve_natural(b, rs, err, ctrl, save_at, atol, rtol, dt0, clip, eps, driver, damp, budget):
     with flowseam.stepped(budget=budget):
         if driver == "save_at":
             solve = ivpsolve.solve_adaptive_save_at(solver=rs, error=err, control=ctrl, clip_dt=clip,
@@ -176,16 +193,44 @@ def make_control(spec):
 
 
 def run_natural(b, save_at, *, atol, rtol, dt0, clip=False, eps=1e-8, driver="save_at", error_spec=None,
-                control_spec=None, fault=None, rec=None, budget=50_000, error_obj=None, keep_states=False, on_call=None):
-    """Real solver, real estimator, real controller; recording proxies inject F1/F2."""
+                control_spec=None, fault=None, rec=None, budget=50_000, error_obj=None, keep_states=False, on_call=None,
+                stop_after_calls=None):
+    """Real solver, real estimator, real controller; recording proxies inject F1/F2.
+    stop_after_calls: end the simulated run after that many estimator calls (r.sol is None, r.truncated True)."""
     rec = rec or Recorder()
     rs = RecSolver(b.solver, rec)
     inner_err = error_obj if error_obj is not None else make_error(b, error_spec or {})
     err = RecErr(inner_err, rec, fault)
     err.keep_states = keep_states
-    err.on_call = on_call
+    ncalls = [0]
+
+    def hook():
+        if on_call is not None:
+            on_call()
+        ncalls[0] += 1
+        if stop_after_calls is not None and ncalls[0] > stop_after_calls:
+            raise StopRun()
+
+    err.on_call = hook
     ctrl = RecCtrl(make_control(control_spec), rec, fault)
     damp = b.cfg["damp"]
+    sol, truncated = None, False
+    try:
+        sol = _solve_natural(b, rs, err, ctrl, save_at, atol, rtol, dt0, clip, eps, driver, damp, budget)
+    except StopRun:
+        truncated = True
+    r = Run()
+    r.sol, r.rs, r.err, r.ctrl, r.rec, r.truncated = sol, rs, err, ctrl, rec, truncated
+    r.accepted = [(t, dt) for (t, dt, seen, true) in err.log if seen >= 1.0]
+    r.attempts = len(err.log)
+    return r
+
+
+class StopRun(Exception):
+    """Raised by the estimator proxy to end a simulated run early (enough attempts recorded)."""
+
+
+def _solve_natural(b, rs, err, ctrl, save_at, atol, rtol, dt0, clip, eps, driver, damp, budget):
     with flowseam.stepped(budget=budget):
         if driver == "save_at":
             solve = ivpsolve.solve_adaptive_save_at(solver=rs, error=err, control=ctrl, clip_dt=clip,
@@ -203,11 +248,7 @@ def run_natural(b, save_at, *, atol, rtol, dt0, clip=False, eps=1e-8, driver="sa
                 warnings.simplefilter("ignore")
                 solve = test_util.solve_adaptive_save_every_step(rs, err, ctrl, clip_dt=clip)
             sol = solve(b.prior, save_at[0], save_at[-1], atol=atol, rtol=rtol, dt0=dt0, eps=eps, damp=damp)
-    r = Run()
-    r.sol, r.rs, r.err, r.ctrl, r.rec = sol, rs, err, ctrl, rec
-    r.accepted = [(t, dt) for (t, dt, seen, true) in err.log if seen >= 1.0]
-    r.attempts = len(err.log)
-    return r
+    return sol
 
 
 # ------------------------------------------------------------------------------------------
